@@ -181,6 +181,12 @@ def enabled_ops(live, b):
                 for ub, su in FLAGS2:
                     ops.append(("filter_leaf_nodes", x, rec, ub, su))
     ops.append(("filter_leaf_nodes", None, True, False, True))  # rejects everything: documented refusal
+    # calls that are asked to remove nothing (they may still restructure: suppression, re-encoding)
+    for ub, su in FLAGS2:
+        ops.append(("filter_leaf_nodes", "*", True, ub, su))
+        if leaf_labels:  # domain: a pruning call must leave at least one leaf with a taxon
+            ops.append(("prune_taxa", (), ub, su))
+            ops.append(("retain_taxa", tuple(leaf_labels), ub, su))
     if leaf_labels:  # domain: a pruning call must leave at least one leaf
         for ub, su in FLAGS2:
             ops.append(("prune_leaves_without_taxa", ub, su))
@@ -242,6 +248,8 @@ def enabled_ops(live, b):
 def _pred(label):
     if label is None:
         return lambda nd: False
+    if label == "*":
+        return lambda nd: True
     return lambda nd: nd.taxon is None or nd.taxon._label != label
 
 
@@ -286,7 +294,7 @@ def apply_op(live, op):
         removed = [l for l in live.leaf_taxa() if l not in op[1]]
         t.retain_taxa_with_labels(list(op[1]))
     elif name == "filter_leaf_nodes":
-        removed = [op[1]] if op[1] is not None else None
+        removed = ([] if op[1] == "*" else [op[1]]) if op[1] is not None else None
         t.filter_leaf_nodes(_pred(op[1]), recursive=op[2], update_bipartitions=op[3], suppress_unifurcations=op[4])
     elif name == "prune_leaves_without_taxa":
         t.prune_leaves_without_taxa(update_bipartitions=op[1], suppress_unifurcations=op[2])
